@@ -15,7 +15,7 @@ var All = map[string]func(s, t string, n int, b bool) (string, int, bool){
 	"LoopCtl": LoopCtl, "RangeIdx": RangeIdx, "SwitchTag": SwitchTag, "SwitchBare": SwitchBare,
 	"SliceBounds": SliceBounds, "Nested": Nested, "Named": Named, "PtrParam": PtrParam,
 	"Swap": Swap, "DivMod": DivMod, "StrOps": StrOps, "IfInit": IfInit, "Iota": Iota,
-	"Bits": Bits, "Down": Down, "Appends": Appends, "RangeVal": RangeVal, "Store": Store,
+	"Bits": Bits, "Down": Down, "Appends": Appends, "RangeVal": RangeVal, "Store": Store, "Recur": Recur,
 }
 
 func ShortAnd(s, t string, n int, b bool) (string, int, bool) {
@@ -256,4 +256,12 @@ func Store(s, t string, n int, b bool) (string, int, bool) {
 	}
 	buf[n] = 'Z'
 	return string(buf), n, b
+}
+
+func Recur(s, t string, n int, b bool) (string, int, bool) {
+	if n <= 0 || len(s) == 0 {
+		return t, 0, b
+	}
+	r, k, ok := Recur(s[1:], t, n-1, !b)
+	return r + s[:1], k + 1, ok
 }
